@@ -116,3 +116,42 @@ package util
 //@   nopanic
 //@   loop 1 invariant forall(j, 0, k, !(oidEq(c.PolicyIdentifiers[j], SMIMEBRMailboxValidatedStrictOID) || oidEq(c.PolicyIdentifiers[j], SMIMEBROrganizationValidatedStrictOID) || oidEq(c.PolicyIdentifiers[j], SMIMEBRSponsorValidatedStrictOID) || oidEq(c.PolicyIdentifiers[j], SMIMEBRIndividualValidatedStrictOID)))
 //@   ensures result == exists(j, 0, len(c.PolicyIdentifiers), oidEq(c.PolicyIdentifiers[j], SMIMEBRMailboxValidatedStrictOID) || oidEq(c.PolicyIdentifiers[j], SMIMEBROrganizationValidatedStrictOID) || oidEq(c.PolicyIdentifiers[j], SMIMEBRSponsorValidatedStrictOID) || oidEq(c.PolicyIdentifiers[j], SMIMEBRIndividualValidatedStrictOID))
+
+// ---------------------------------------------------------------------------
+// reserved addresses (C19). The table is whatever init() in ip.go parses: tableLit
+// is the set of CIDR string constants of that function (extracted from its SSA).
+
+//@ spec tableLit(s string) bool = anyLit(x, "init@ip.go", s == x)
+//@ spec inRN(x int) bool = exists(j, 0, len(reservedNetworks), netid(reservedNetworks[j]) == x)
+//@ spec rnWF() bool =
+//@      forLits(s, "init@ip.go", inRN(cidr(s))) &&
+//@      forall(j, 0, len(reservedNetworks), reservedNetworks[j] != nil &&
+//@             anyLit(s, "init@ip.go", netid(reservedNetworks[j]) == cidr(s)))
+//@ spec listDone(l []string) bool = forall(i, 0, len(l), inRN(cidr(l[i])))
+//@ spec fromLits(networks map[subnetCategory][]string) bool =
+//@      forall(j, 0, len(reservedNetworks), reservedNetworks[j] != nil &&
+//@             some(c, subnetCategory, indom(networks, c) &&
+//@                  exists(i, 0, len(networks[c]), netid(reservedNetworks[j]) == cidr(networks[c][i]))))
+//@ spec litsSound(networks map[subnetCategory][]string) bool =
+//@      all(c, subnetCategory, implies(indom(networks, c), forall(i, 0, len(networks[c]), tableLit(networks[c][i]))))
+
+//@ func init@ip.go [C19]
+//@   requires len(reservedNetworks) == 0
+//@   nopanic
+//@   assigns \fresh, reservedNetworks
+//@   loop 1 invariant fromLits(networks)
+//@   loop 1 invariant all(c, subnetCategory, implies(seen(1, c), listDone(networks[c])))
+//@   loop 2 invariant fromLits(networks) && seen(1, curkey(1)) && indom(networks, curkey(1)) && netList == networks[curkey(1)]
+//@   loop 2 invariant all(c, subnetCategory, implies(seen(1, c) && c != curkey(1), listDone(networks[c])))
+//@   loop 2 invariant forall(i, 0, k, inRN(cidr(netList[i])))
+//@   ensures fromLits(networks) && all(c, subnetCategory, implies(indom(networks, c), listDone(networks[c])))
+//@   ensures litsSound(networks)
+//@   ensures litWitnesses(networks, "init@ip.go")
+//@   ensures forall(j, 0, len(reservedNetworks), reservedNetworks[j] != nil && anyLit(s, "init@ip.go", netid(reservedNetworks[j]) == cidr(s)))
+
+//@ func IsIANAReserved [C19]
+//@   pure
+//@   nopanic
+//@   loop 1 invariant forall(j, 0, k, !netContains(netid(reservedNetworks[j]), ipval(ip)))
+//@   requires forall(j, 0, len(reservedNetworks), reservedNetworks[j] != nil)
+//@   ensures result == (!gu(ipval(ip)) || exists(j, 0, len(reservedNetworks), netContains(netid(reservedNetworks[j]), ipval(ip))))
